@@ -23,3 +23,4 @@ def run(ctx, rep):
     compiler_rules.rule_resolver_side_effects(ctx, rep, "C08-R16")
     compiler_rules.rule_computed_flag_consulted(ctx, rep, "C08-R17")
     objmodel.rule_arrow_this_is_lexical(ctx, rep, "C08-R18")
+    objmodel.rule_delete_clears_every_table(ctx, rep, "C08-R19")
